@@ -7,6 +7,7 @@ CONSTANTS
   MaxOpen = 1
   MaxRetries = 2
   ServerAcks = FALSE
+  MaxReorder = 2
   ReshowAllowed = FALSE
 CONSTRAINT Bounded
 INVARIANT Emit
